@@ -238,18 +238,19 @@ func (s *pathState) clone() *pathState {
 }
 
 type tracer struct {
-	p          *Program
-	prims      map[string]string
-	inline     map[string]bool        // callees to inline
-	noAuto     func(name string) bool // framer methods that are deliberately not followed
-	trackBuf   string                 // byte buffer whose appends / stores are recorded ("f.buf"), "" = off
-	trackVar   string                 // struct variable whose field assignments are recorded ("head"), "" = off
-	trackField string                 // field name whose assignments (on any variable) are recorded, "" = off
-	primVars   map[string]string      // calls through a function-typed variable of this name are primitives
-	unsup      []string
-	maxPaths   int
-	npaths     int
-	verField   string // "proto": f.proto / header version selector suffix
+	p             *Program
+	prims         map[string]string
+	inline        map[string]bool        // callees to inline
+	noAuto        func(name string) bool // framer methods that are deliberately not followed
+	trackBuf      string                 // byte buffer whose appends / stores are recorded ("f.buf"), "" = off
+	trackVar      string                 // struct variable whose field assignments are recorded ("head"), "" = off
+	trackField    string                 // field name whose assignments (on any variable) are recorded, "" = off
+	primVars      map[string]string      // calls through a function-typed variable of this name are primitives
+	markTypeCases bool                   // record which type-switch clause a path took ("typecase" items)
+	unsup         []string
+	maxPaths      int
+	npaths        int
+	verField      string // "proto": f.proto / header version selector suffix
 }
 
 // autoInline: a framer method with a body that is neither a primitive nor explicitly listed is a helper the
@@ -1102,7 +1103,15 @@ func (tr *tracer) execStmt(fi *FuncInfo, s ast.Stmt, st *pathState) []*pathState
 			if cc.List == nil {
 				hasDefault = true
 			}
-			out = append(out, tr.execList(fi, cc.Body, []*pathState{st.clone()})...)
+			n := st.clone()
+			if tr.markTypeCases {
+				var ts []string
+				for _, e := range cc.List {
+					ts = append(ts, exprStr(e))
+				}
+				n.trace = append(n.trace, TraceItem{Prim: "typecase", Arg: strings.Join(ts, ","), Pos: cc.Pos()})
+			}
+			out = append(out, tr.execList(fi, cc.Body, []*pathState{n})...)
 		}
 		if !hasDefault {
 			out = append(out, st)
@@ -1506,6 +1515,18 @@ func (tr *tracer) recordBufOps(fi *FuncInfo, as *ast.AssignStmt, st *pathState) 
 		if tr.trackField != "" {
 			if sel, ok := ast.Unparen(l).(*ast.SelectorExpr); ok && sel.Sel.Name == tr.trackField {
 				st.trace = append(st.trace, TraceItem{Prim: "field", Arg: sel.Sel.Name, Expr: rhs, Pos: as.Pos()})
+			}
+			// x = &T{field: v} / m[k] = T{field: v}
+			lit := ast.Unparen(rhs)
+			if u, ok := lit.(*ast.UnaryExpr); ok && u.Op == token.AND {
+				lit = ast.Unparen(u.X)
+			}
+			if cl, ok := lit.(*ast.CompositeLit); ok {
+				for _, el := range cl.Elts {
+					if kv, ok := el.(*ast.KeyValueExpr); ok && exprStr(kv.Key) == tr.trackField {
+						st.trace = append(st.trace, TraceItem{Prim: "field", Arg: tr.trackField, Expr: kv.Value, Pos: as.Pos()})
+					}
+				}
 			}
 		}
 	}
